@@ -40,6 +40,14 @@ func InstallHooks() {
 		jsonata.VerifYield = engine.HookYield
 		jsonata.VerifStep = func(n jparse.Node) error { return engine.HookStep(n) }
 		jsonata.VerifLockWait = engine.HookLockWait
+		// lock calibration: does the code really hold globalRegistryMutex at
+		// the yield points inside its two critical sections?
+		jsonata.VerifResetGlobals()
+		engine.LockCalib.On = true
+		_ = jsonata.RegisterVars(map[string]interface{}{"calib": 1.0})
+		_, _ = jsonata.Compile("1")
+		engine.LockCalib.On = false
+		jsonata.VerifResetGlobals()
 	})
 }
 
@@ -474,6 +482,14 @@ func Execute(spec *Spec, opt Options) *Result {
 		res.Probes[k] = v
 		if strings.HasPrefix(k, "preempt@") && k != "preempt@eval" && k != "preempt@op.end" {
 			res.WindowSw += v
+		}
+	}
+	if usesRegistry {
+		if engine.LockCalib.ReadSeen && engine.LockCalib.ReadHeld {
+			res.Probes["calib_read_lock_held"]++
+		}
+		if engine.LockCalib.WriteSeen && engine.LockCalib.WriteHeld {
+			res.Probes["calib_write_lock_held"]++
 		}
 	}
 	res.Deadlock, res.StepBudget = s.Deadlock, s.StepBudget
